@@ -8,8 +8,9 @@ import warnings
 INF = 99
 XS = "http://www.w3.org/2001/XMLSchema"
 TNS = "urn:T"
-SYM_XML = {"o": '<o:o xmlns:o="urn:O"/>'}
-WILD = {"any": "##any", "other": "##other", "tns": "##targetNamespace"}
+SYM_XML = {"o": '<o:o xmlns:o="urn:O"/>', "u": "<u/>"}
+WILD = {"any": "##any", "other": "##other", "tns": "##targetNamespace", "local": "##local",
+        "tl": "##targetNamespace ##local", "oo": "urn:O", "ol": "urn:O ##local"}
 
 
 def occ(mn, mx):
@@ -70,6 +71,9 @@ def model_xsd(m, variant="inline"):
             glob = ('<xs:element name="a" type="xs:string"/>'
                     '<xs:element name="k" type="xs:string" abstract="true" substitutionGroup="t:a"/>'
                     '<xs:element name="m" type="xs:string" substitutionGroup="t:k"/>')
+    if uses_head(m, "p") or uses_head(m, "q"):      # XSD 1.1: r is a member of both substitution groups
+        glob += ('<xs:element name="p" type="xs:string"/><xs:element name="q" type="xs:string"/>'
+                 '<xs:element name="r" type="xs:string" substitutionGroup="t:p t:q"/>')
     imp = ""
     if uses_head(m, "f"):      # head f of this namespace with the member o of the foreign namespace urn:O
         import pathlib
